@@ -84,7 +84,7 @@ class Vector(Qube):
             if arg.rank > 1:
                 return arg.split_items(1, Vector)
 
-            arg = Vector(arg)
+            arg = Vector(arg, derivs=arg._derivs_)
             if recursive:
                 return arg
 
